@@ -606,7 +606,11 @@ var textBits = []string{noSpaceText, hugeText, "a", "hello", " ", "  ", "\n", "\
 func (g *Gen) text() *TNode {
 	var sb strings.Builder
 	for i, n := 0, g.r.Range(1, 4); i < n; i++ {
-		sb.WriteString(pick(g.r, textBits))
+		bit := pick(g.r, textBits)
+		if g.loop > 0 && len(bit) > 1000 {
+			bit = noSpaceText // the 9.6 kB chunk stays outside loops: nested loops would make hundreds of megabytes of it
+		}
+		sb.WriteString(bit)
 	}
 	s := sb.String()
 	if g.crlf {
